@@ -237,6 +237,13 @@ ScalarList(st, xs) == [k \in 1 .. Len(xs) |-> Scalar(st, xs[k])]
 \* target of a creation / move: "obj" handle | "none" | "server" -> [id, group]
 TargetId(st, e) == IF e.tk = "obj" THEN st.obj[e.t].id ELSE st.cfg.defgroup
 
+RECURSIVE RefsOf(_)
+RefsOf(xs) == IF xs = <<>> THEN {}
+              ELSE (IF xs[1].k \in {"obj", "map"} THEN {xs[1].i} ELSE {}) \cup RefsOf(xs[1].c) \cup RefsOf(Tail(xs))
+RefersToNothing(st, e) ==
+    \E h \in ({e.h} \cup (IF e.tk = "obj" THEN {e.t} ELSE {}) \cup RefsOf(e.a)) \ {0} :
+        h > Len(st.obj) \/ st.obj[h].kind = "none"
+MakingOps == {"synth", "paused", "replace", "group", "basic", "buffer", "buffer_noalloc", "consecutive", "cbus", "abus"}
 One(m) == <<Ev("msg", NOTIME, <<m>>)>>
 R(st, em, exc) == [st |-> st, em |-> em, exc |-> exc]      \* next state, expected wire events, expected exception class
 AddObj(st, o) == [st EXCEPT !.obj = Append(@, o)]
@@ -251,7 +258,9 @@ Apply(st, e) ==
     LET o == IF e.h >= 1 /\ e.h <= Len(st.obj) THEN st.obj[e.h] ELSE Obj("none", 0, 0, FALSE)
         id == o.id
         new == IF Len(e.ids) >= 1 THEN e.ids[1] ELSE 0 - 2 IN
-    CASE e.exc = "NoSpace" /\ e.op \in {"buffer", "buffer_noalloc", "consecutive", "cbus", "abus"} ->
+    CASE RefersToNothing(st, e) ->       \* the drivers do not call with an object that was never made
+            R(IF e.op \in MakingOps THEN AddObj(st, Obj("none", 0, 0, FALSE)) ELSE st, <<>>, "NoObject")
+      [] e.exc = "NoSpace" /\ e.op \in {"buffer", "buffer_noalloc", "consecutive", "cbus", "abus"} ->
             R(AddObj(st, Obj("none", 0, 0, FALSE)), <<>>, "NoSpace")       \* refused: justified or not is AllocOk's business
       [] e.op = "synth" ->
             R(NewNode(st, "synth", new),
@@ -399,12 +408,16 @@ OnlyKnownIds(st2, st, ms) ==       \* st2: state after the call (ids created by 
                   /\ BufIds(m) \subseteq KnownBufs(st2) \cup KnownBufs(st)
                   /\ BusIds(m) \subseteq KnownBuses(st2) \cup KnownBuses(st)
 CreationCmds == {"/s_new", "/g_new", "/p_new"}
-Why(st, e) ==
-    LET x == Step(st, e)
+\* a bundle without elements carries no command: it is not counted as output
+Norm(em) == SelectSeq(em, LAMBDA w : w.m # <<>>)
+Why(st, e0) ==
+    LET e == [e0 EXCEPT !.em = Norm(@)]
+        x == Step(st, e)
         ms == AllMsgs(e.em) IN
     IF e.exc # x.exc THEN (IF e.exc = "" THEN "NotRefused" ELSE "raised")
+    ELSE IF e.exc # "NoObject" /\ ~AllocOk(st, e) THEN "IdNotFromAllocator"
+    ELSE IF e.exc # "" THEN (IF e.em = <<>> THEN "ok" ELSE "EmittedAlthoughRefused")
     ELSE IF ~NodeFresh(st, e) THEN "NodeIdRange"
-    ELSE IF ~AllocOk(st, e) THEN "IdNotFromAllocator"
     ELSE IF e.op \in {"b_free", "bus_free"} /\ ~st.inbind /\ e.em # x.em THEN "FreeOncePerOwnedId"
     ELSE IF \E m \in ms : ~WellTyped(m) THEN "WellTyped"
     \* (the ids inside a block's bundle were known when the calls were issued; the bundle is compared below)
